@@ -186,12 +186,27 @@ def opCallConfig (c : Json) : R Json := do
     match p with
     | .arr #[.str n, d] => do let (v, sh) ← parseDV d; pure (chars n, v, sh)
     | _ => throw "bad override")
-  match configFor classAnn ignore ov sig with
-  | .notImplemented => return Json.mkObj [("o", "raise"), ("exc", "NotImplementedError")]
-  | .ok fs =>
+  let doc (k : String) : Option Str := match optField c k with
+    | some (.str t) => some (chars t)
+    | _ => none
+  match configForDoc (doc "class_doc") (doc "init_doc") classAnn ignore ov sig with
+  | (.notImplemented, _) => return Json.mkObj [("o", "raise"), ("exc", "NotImplementedError")]
+  | (.docError .valueError, _) => return Json.mkObj [("o", "raise"), ("exc", "ValueError")]
+  | (.docError _, _) => return Json.mkObj [("o", "raise"), ("exc", "KeyError")]
+  | (.ok fs, helps) =>
     return Json.mkObj [("o", "ok"), ("fields", Json.arr (fs.map (fun f =>
       Json.mkObj [("name", jstr f.name), ("required", Json.bool f.default.isNone),
-                  ("default", match f.default with | some v => jstr v | none => Json.null)])).toArray)]
+                  ("default", match f.default with | some v => jstr v | none => Json.null),
+                  ("help", match (helps.lookup f.name) with
+                    | some (some h) => jstr h
+                    | _ => Json.null)])).toArray)]
+
+/-- op `call.docargs`: {doc} ↦ {o: ok, entries} | {o: raise, exc} -/
+def opCallDocArgs (c : Json) : R Json := do
+  match parseArgsDoc (chars (← str c "doc")) with
+  | .ok es => return Json.mkObj [("o", "ok"), ("entries", jpairs es)]
+  | .valueError => return Json.mkObj [("o", "raise"), ("exc", "ValueError")]
+  | .keyError => return Json.mkObj [("o", "raise"), ("exc", "KeyError")]
 
 /-- op `call.partial`: {sig, parse, args, kwargs} ↦ outcome -/
 def opCallPartial (c : Json) : R Json := do
@@ -237,6 +252,7 @@ def opCallCache (c : Json) : R Json := do
 def callablesOps : List (String × (Json → R Json)) :=
   [("call.keep", opCallKeep), ("call.fields", opCallFields), ("call.main", opCallMain),
    ("call.bind", opCallBind), ("call.config", opCallConfig), ("call.partial", opCallPartial),
-   ("call.cache", opCallCache), ("call.infer", opCallInfer)]
+   ("call.cache", opCallCache), ("call.cachemany", opCallCache), ("call.infer", opCallInfer),
+   ("call.docargs", opCallDocArgs)]
 
 end SpVerif.Drive
